@@ -328,7 +328,18 @@ def unmerge_contents(cset, offset=None, callback=None):
 
     for x in iterate(cset.iterdirs(invert=True)):
         callback(x)
-        unlink_if_exists(x.location)
+        try:
+            unlink_if_exists(x.location)
+        except OSError as e:
+            if e.errno == errno.ENOTDIR:
+                # a parent directory is a non-directory now: the entry is gone
+                continue
+            # recorded as a non-directory, but a directory lives there now: it
+            # isn't ours, leave it alone and carry on
+            if e.errno not in (errno.EISDIR, errno.EPERM) or not os.path.isdir(
+                x.location
+            ):
+                raise
 
     # this is a fair sight faster then using sorted/reversed
     l = list(iterate(cset.iterdirs()))
